@@ -553,6 +553,11 @@ fn branch_state_programs() -> Vec<(String, Vec<f64>, String)> {
     v.push(("fn counter(){ self+1.0 }\nfn other(){ self+10.0 }\nfn dsp(){\n  if (counter() > 3.0) { 0.0 } else { other() }\n}\n".to_string(), vec![10.0, 20.0, 30.0, 0.0, 0.0, 0.0], "stateful condition, stateful else-branch".to_string()));
     v.push(("fn counter(){ self+1.0 }\nfn other(){ self+10.0 }\nfn dsp(){\n  if (counter() > 3.0) { other() } else { 0.0 }\n}\n".to_string(), vec![0.0, 0.0, 0.0, 10.0, 20.0, 30.0], "stateful condition, stateful then-branch".to_string()));
     v.push(("fn counter(){ self+1.0 }\nfn other(){ self+10.0 }\nfn gate(){\n  let r = if (counter() > 2.0) { 1.0 } else { 0.0 }\n  self + r\n}\nfn dsp(){\n  let g = gate()\n  let t = other()\n  g + t*1000.0\n}\n".to_string(), vec![10000.0, 20000.0, 30001.0, 40002.0, 50003.0], "stateful condition after `self`, another cell behind the function".to_string()));
+    // stateful default-argument expressions (finding F31, repaired): the getter's cell belongs to the call site that uses the default
+    v.push(("fn counter(){ self+1.0 }\nfn foo(x = counter(), y = 200.0){ x+y }\nfn dsp(){\n  foo({..})\n}\n".to_string(), vec![201.0, 202.0, 203.0, 204.0], "stateful default argument, no other cell in the caller".to_string()));
+    v.push(("fn counter(){ self+1.0 }\nfn other(){ self+10.0 }\nfn foo(x = counter(), y = 200.0){ x+y }\nfn dsp(){\n  let a = other()\n  let b = foo({..})\n  a*1000.0 + b\n}\n".to_string(), vec![10201.0, 20202.0, 30203.0, 40204.0], "stateful default argument behind another cell".to_string()));
+    v.push(("fn counter(){ self+1.0 }\nfn foo(x = counter(), y = 200.0){ x+y }\nfn dsp(){ foo({..}) + foo({..})*1000.0 }\n".to_string(), vec![201201.0, 202202.0, 203203.0, 204204.0], "stateful default argument used at two call sites".to_string()));
+    v.push(("fn counter(){ self+1.0 }\nfn foo(x = counter(), y = 200.0){ x+y }\nfn dsp(){\n  let a = foo({y = 5.0})\n  let b = mem(a)\n  a*1000.0 + b\n}\n".to_string(), vec![6000.0, 7006.0, 8007.0, 9008.0], "stateful default argument next to an explicit one, a mem cell behind the call".to_string()));
     // stateful global initialisers (finding F26): their cells live in the global storage, which execute_main has to size
     v.push(("let g = mem(1.0)\nfn dsp(){\n  g + 5.0\n}\n".to_string(), vec![5.0, 5.0, 5.0, 5.0], "mem in a global initialiser".to_string()));
     v.push(("let g = delay(64.0, 3.0, 1.0)\nfn dsp(){\n  g + 2.0\n}\n".to_string(), vec![2.0, 2.0, 2.0, 2.0], "delay with a 66-word cell in a global initialiser".to_string()));
